@@ -40,7 +40,14 @@ type C16Scenario struct {
 	// Direct: the smtp package is driven directly — Auth is refused locally by the mechanism
 	// (unencrypted connection or wrong host name), the server does not honour the QUIT that
 	// follows, and the caller goes on using the connection. What follows must be logged normally.
-	Direct string `json:"direct,omitempty"` // "" | unencrypted | wronghost
+	//
+	// "late-debug": debug logging is off when the smtp.Client is set up and is switched on by
+	// another task (an operator turning on the debug log at run time) at a scheduled point —
+	// before, in the middle of, or after the AUTH exchange. From that moment on logging is on,
+	// and what is logged must be free of secrets; after the exchange traffic is logged normally.
+	Direct string `json:"direct,omitempty"` // "" | unencrypted | wronghost | late-debug
+	// ToggleAfter: late-debug: virtual microseconds the toggling task waits first.
+	ToggleAfter int `json:"toggleAfter,omitempty"`
 }
 
 type c16 struct{}
@@ -51,8 +58,8 @@ func (*c16) ID() string                     { return "C16" }
 func (*c16) Level() string                  { return "exploration" }
 func (*c16) Decode(raw []byte) (any, error) { return decodeInto[C16Scenario](raw) }
 
-var c16Mechs = []string{"PLAIN-NOENC", "LOGIN-NOENC", "CRAM-MD5", "XOAUTH2", "SCRAM-SHA-1", "SCRAM-SHA-256", "PLAIN", "LOGIN", "SCRAM-SHA-256-PLUS", "SCRAM-SHA-1-PLUS", "AUTODISCOVER", "CUSTOM-PLAIN", "CUSTOM-LOGIN"}
-var c16Scripts = []string{"writefail-2", "writefail-3", "writefail-4", "success", "success", "fail-auth", "fail-resp1", "fail-resp2", "fail-resp3", "bad-password", "malformed-challenge", "extra-challenge", "drop-auth", "drop-resp1", "drop-resp2", "stall-resp1", "stall-auth"}
+var c16Mechs = []string{"PLAIN-NOENC", "LOGIN-NOENC", "CRAM-MD5", "XOAUTH2", "SCRAM-SHA-1", "SCRAM-SHA-256", "PLAIN", "LOGIN", "SCRAM-SHA-256-PLUS", "SCRAM-SHA-1-PLUS", "AUTODISCOVER", "CUSTOM-PLAIN", "CUSTOM-LOGIN", "CUSTOM-STEPLOGIN"}
+var c16Scripts = []string{"writefail-2", "writefail-3", "writefail-4", "success", "success", "fail-auth", "fail-resp1", "fail-resp2", "fail-resp3", "bad-password", "malformed-challenge", "extra-challenge", "drop-auth", "drop-resp1", "drop-resp2", "stall-resp1", "stall-auth", "early-235"}
 
 func genSecret(r *sim.Rand, tag string) string {
 	const alpha = "abcdefghijklmnopqrstuvwxyzABCDEFGHIJKLMNOPQRSTUVWXYZ0123456789"
@@ -84,6 +91,16 @@ func (p *c16) Gen(seed uint64, i int, tier string) (any, bool) {
 		sc.Server.Rules = []refsmtpd.Rule{{Verb: "QUIT", Nth: 1, Action: refsmtpd.Action{Code: sim.Pick(r, []int{502, 421, 250}), Text: "not now"}}}
 		return sc, true
 	}
+	if i%23 == 21 {
+		sc := &C16Scenario{Script: "direct", Sched: sim.Derive(seed, 16, uint64(i), 1), Direct: "late-debug", ToggleAfter: r.Intn(1200)}
+		sc.Client = ClientCfg{User: genSecret(r, "U"), Pass: genSecret(r, "P"), AuthType: sim.Pick(r, []string{"PLAIN", "LOGIN", "CRAM-MD5", "SCRAM-SHA-256"}), Logger: sim.Pick(r, []string{"capture", "std", "json"})}
+		sc.Server.Caps = []string{"8BITMIME", authCaps(allMechs...)}
+		sc.Server.Auth = refsmtpd.AuthCfg{User: sc.Client.User, Pass: sc.Client.Pass, Salt: r.Bytes(12), Iter: 4, NonceSuffix: "SrvC16"}
+		if r.Chance(1, 4) {
+			sc.Server.Rules = []refsmtpd.Rule{{Verb: "AUTHRESP", Nth: 1 + r.Intn(2), Action: refsmtpd.Action{Code: 535, Text: "authentication credentials invalid"}}}
+		}
+		return sc, true
+	}
 	mech := c16Mechs[i%len(c16Mechs)]
 	script := c16Scripts[(i/len(c16Mechs))%len(c16Scripts)]
 	user, pass := genSecret(r, "U"), genSecret(r, "P")
@@ -109,6 +126,9 @@ func (p *c16) Gen(seed uint64, i int, tier string) (any, bool) {
 		sc.Server.Rules = []refsmtpd.Rule{{Verb: sim.Pick(r, []string{"AUTH", "AUTHRESP"}), Nth: 1, Action: refsmtpd.Action{Kind: "raw", Code: 334, Text: "!!! this is *not* base64 !!!"}}}
 	case "extra-challenge":
 		sc.Server.Rules = []refsmtpd.Rule{{Verb: "AUTHRESP", Nth: 1 + r.Intn(4), Action: refsmtpd.Action{Kind: "raw", Code: 334, Text: base64.StdEncoding.EncodeToString([]byte("one more thing?"))}}}
+	case "early-235":
+		// the server gives its verdict one step earlier than the mechanism expects
+		sc.Server.Rules = []refsmtpd.Rule{{Verb: "AUTHRESP", Nth: 1 + r.Intn(3), Action: refsmtpd.Action{Code: 235, Text: "authentication succeeded"}}}
 	case "drop-auth":
 		sc.Server.Rules = []refsmtpd.Rule{{Verb: "AUTH", Nth: 1, Action: refsmtpd.Action{Kind: "drop"}}}
 	case "drop-resp1", "drop-resp2":
@@ -142,6 +162,9 @@ func secretForms(pass string) map[string]string {
 
 func (p *c16) Exec(t *testing.T, scAny any) Outcome {
 	sc := scAny.(*C16Scenario)
+	if sc.Direct == "late-debug" {
+		return p.execLateDebug(t, sc)
+	}
 	if sc.Direct != "" {
 		return p.execDirect(t, sc)
 	}
@@ -439,5 +462,124 @@ func (p *c16) execDirect(t *testing.T, sc *C16Scenario) Outcome {
 	out.stat("runs.smtp-direct", 1)
 	out.Key = fmt.Sprintf("direct|%s|%s|%s|%v", sc.Direct, sc.Client.AuthType, sc.Client.Logger, sc.Server.Rules[0].Code)
 	out.Nontrivial = sawNoop || sawMail
+	return out
+}
+
+// execLateDebug: see C16Scenario.Direct.
+func (p *c16) execLateDebug(t *testing.T, sc *C16Scenario) Outcome {
+	var out Outcome
+	capture := &CaptureLogger{}
+	var buf bytes.Buffer
+	var logger mlog.Logger = capture
+	switch sc.Client.Logger {
+	case "std":
+		logger = mlog.New(&buf, mlog.LevelDebug)
+	case "json":
+		logger = mlog.NewJSON(&buf, mlog.LevelDebug)
+	}
+	var env *NetEnv
+	var authErr error
+	ran := false
+	toggledAt, authFrom, authTo := -1, -1, -1
+	res := RunSim(t, sc.Sched, sim.Policy{Kind: "random"}, 0, time.Hour, func(k *sim.Kernel) (func(), func()) {
+		env = &NetEnv{K: k, Srv: refsmtpd.New(k, sc.Server, TLSMat)}
+		return func() {
+			conn, _ := env.Dial(context.Background(), "tcp", "mx.sim.example:25")
+			c, err := smtp.NewClient(conn, "mx.sim.example")
+			if err != nil {
+				return
+			}
+			c.SetLogger(logger)
+			if err := c.Hello("client.sim.example"); err != nil {
+				return
+			}
+			tog := k.Go("operator", func() {
+				k.Sleep(time.Duration(sc.ToggleAfter) * time.Microsecond)
+				toggledAt = k.Steps
+				c.SetDebugLog(true)
+			})
+			var a smtp.Auth
+			switch sc.Client.AuthType {
+			case "LOGIN":
+				a = smtp.LoginAuth(sc.Client.User, sc.Client.Pass, "mx.sim.example", true)
+			case "CRAM-MD5":
+				a = smtp.CRAMMD5Auth(sc.Client.User, sc.Client.Pass)
+			case "SCRAM-SHA-256":
+				a = smtp.ScramSHA256Auth(sc.Client.User, sc.Client.Pass)
+			default:
+				a = smtp.PlainAuth("", sc.Client.User, sc.Client.Pass, "mx.sim.example", true)
+			}
+			authFrom = k.Steps
+			authErr = c.Auth(a)
+			authTo = k.Steps
+			k.Join(tog)
+			_ = c.Noop()
+			_ = c.Mail("sender-afterauth@origin.example")
+			ran = true
+			_ = c.Close()
+		}, env.Freeze
+	})
+	out.SimNs, out.Steps, out.Digest = res.VirtualNs, res.Steps, res.Digest
+	if res.BubbleErr != "" {
+		out.Infra = "bubble: " + res.BubbleErr
+		return out
+	}
+	if !ran {
+		out.stat("not-judged.direct-run-did-not-complete", 1)
+		return out
+	}
+	var texts []string
+	for _, r := range capture.Records {
+		texts = append(texts, r.Text)
+	}
+	texts = append(texts, buf.String())
+	all := strings.Join(texts, "\n")
+	when := "before-auth"
+	switch {
+	case toggledAt > authTo:
+		when = "after-auth"
+	case toggledAt >= authFrom:
+		when = "during-auth"
+	}
+	out.stat("probe.debug-switched-on-"+when, 1)
+	for k, v := range secretForms(sc.Client.Pass) {
+		if strings.Contains(all, v) {
+			out.violate("C16:leak:password:"+k+":late-debug", "debug logging switched on %s (%s, Auth returned %v): the log contains the password (%s form)", when, sc.Client.AuthType, authErr, k)
+		}
+	}
+	// the SASL lines that carry the secret, as the server saw them
+	nresp := 0
+	for _, e := range env.Srv.H.Events {
+		if e.Kind != "cmd" {
+			continue
+		}
+		line := ""
+		switch {
+		case e.Verb == "AUTH" && sc.Client.AuthType == "PLAIN":
+			if f := strings.Fields(e.Line); len(f) == 3 {
+				line = f[2]
+			}
+		case e.Verb == "AUTHRESP":
+			nresp++
+			if (sc.Client.AuthType == "LOGIN" && nresp == 2) || (sc.Client.AuthType == "PLAIN" && nresp == 1) {
+				line = strings.TrimSpace(e.Line)
+			}
+		}
+		if len(line) >= 12 && strings.Contains(all, line) {
+			out.violate("C16:leak:sasl-response:late-debug", "debug logging switched on %s (%s): the log contains the SASL response %q that carries the password", when, sc.Client.AuthType, clipStr(line, 60))
+		}
+	}
+	sawMail := false
+	for _, e := range env.Srv.H.Events {
+		if e.Kind == "cmd" && e.Verb == "MAIL" {
+			sawMail = true
+		}
+	}
+	if sawMail && !strings.Contains(all, "MAIL FROM:<sender-afterauth@origin.example>") {
+		out.violate("C16:window-not-closed:late-debug", "debug logging switched on %s (%s, Auth returned %v): the MAIL command that followed the exchange reached the server but is not in the log verbatim (log tail: %q)", when, sc.Client.AuthType, authErr, clipStr(tailStr(all, 300), 300))
+	}
+	out.stat("runs.smtp-direct-late-debug", 1)
+	out.Key = fmt.Sprintf("late-debug|%s|%s|%s|%d|%v", when, sc.Client.AuthType, sc.Client.Logger, sc.ToggleAfter, authErr == nil)
+	out.Nontrivial = true
 	return out
 }
